@@ -72,6 +72,12 @@ func runSolver(ctx context.Context, sp solverSpec, file string, timeoutS, seed i
 	case "unsat", "sat":
 		return first, out, secs
 	}
+	if strings.Contains(out, "(error") && !strings.HasPrefix(first, "unknown") && !strings.HasPrefix(first, "timeout") {
+		fmt.Fprintf(os.Stderr, "h2vc: solver %s reported an error on %s: %s\n", sp.name, file, firstLines(out, 2))
+		if os.Getenv("H2VC_KEEP") != "" {
+			_ = os.WriteFile(file+".err.smt2", mustRead(file), 0o644)
+		}
+	}
 	return "unknown", out, secs
 }
 
@@ -161,6 +167,9 @@ func (o *Obligation) solve(workDir string, timeoutS, seed int, cache *solveCache
 			return
 		}
 	}
+	if o.ExpectSat && timeoutS > 4 {
+		timeoutS = 4 // canaries and covers only need a quick sat/unknown answer
+	}
 	r := solveScript(script, workDir, timeoutS, seed, "")
 	if cache != nil && r.Status != "unknown" {
 		cache.put(script, r)
@@ -219,3 +228,5 @@ func (c *solveCache) put(script string, r SolveResult) {
 	_ = os.MkdirAll(c.dir, 0o755)
 	_ = os.WriteFile(c.path(script), []byte(fmt.Sprintf("%s\n%s\n%f\n%s", r.Status, r.Solver, r.Secs, r.Output)), 0o644)
 }
+
+func mustRead(f string) []byte { b, _ := os.ReadFile(f); return b }
